@@ -615,7 +615,7 @@ func c14Run(t *testing.T, cj []byte, res *vfResult) {
 func init() {
 	vfRegister(&vfProp{
 		ID: "C13", Level: "fault_enumeration", ReplayClass: "decision-exact",
-		Rule: "case index k mod 48 enumerates ICE-lite on A x ICE-lite on B x answering DTLS role {unset, client, server} x offer a=setup {actpass, active, passive, absent} (the signaling channel rewrites the offer's setup; A's own copy stays actpass); each configuration runs a full connection on the simulated network with a seeded delay; distinct non-trivial = distinct configurations executed (48 = complete)",
+		Rule: "case index k mod 48 enumerates ICE-lite on A x ICE-lite on B x answering DTLS role {unset, client, server} x offer a=setup {actpass, active, passive, absent}; the next two index bits add a rejected first m-section and white space left behind a=ice-lite by the signaling channel (the signaling channel rewrites the offer's setup; A's own copy stays actpass); each configuration runs a full connection on the simulated network with a seeded delay; distinct non-trivial = distinct configurations executed (48 = complete)",
 		Real: []string{"both PeerConnections with real ICE (incl. lite), DTLS, SCTP", "vnet"},
 		Stub: []string{"signaling channel rewriting a=setup", "network observer recording the first DTLS ClientHello"},
 		Assumptions: []string{"an answerer that rejects an offer with an unusual/absent setup with an error is not a violation", "for lite/lite nobody sends connectivity checks: only the ICE role clause is evaluated",
